@@ -64,6 +64,11 @@ const (
 	// and without trailing texts, GetJoinFieldErr, CheckFieldIsStr, ToStr, JoinTag2Val) and built-in rule functions called
 	// directly with a builder of the caller's own.
 	EHelper = "exported helper"
+	// EMapRetry / EUrlRetry: the builder objects used twice - the first Valid ends with one of the early errors (nil source, no
+	// rules yet, a source that is not a string), the caller then supplies what was missing and calls Valid again on the same
+	// object (seeded C11q released the pooled buffer on the early return and kept using it).
+	EMapRetry = "NewVMap.Valid(early error).SetRule.Valid"
+	EUrlRetry = "NewVUrl.Valid(early error).SetRule.Valid"
 )
 
 const NHelpers = 14
@@ -428,7 +433,7 @@ func (c Call) build() *args {
 			a.strs = append([]string(nil), varRules[(c.Rule+1+c.Val)%len(varRules)]...)
 			a.fns = mkFns(c.Fn)
 		}
-	case c.Entry == EMap || c.Entry == EMapFn:
+	case c.Entry == EMap || c.Entry == EMapFn || c.Entry == EMapRetry:
 		// 1..3 entries, all with the same value and the same rule
 		n := 1 + c.Val%3
 		if c.Rule%6 == 5 {
@@ -469,7 +474,7 @@ func (c Call) build() *args {
 		}
 		a.fns = mkFns(c.Fn)
 		a.unordered = n > 1
-	case c.Entry == EUrl || c.Entry == EUrlForFn:
+	case c.Entry == EUrl || c.Entry == EUrlForFn || c.Entry == EUrlRetry:
 		a.str = urls[c.Val%len(urls)]
 		a.src = a.str
 		if c.Shape == 1 {
@@ -606,6 +611,47 @@ func (c Call) Exec() (res Result) {
 		errRes(valid.Map(a.src, a.rule))
 	case EMapFn:
 		errRes(valid.MapFn(a.src, a.rule, a.fns))
+	case EMapRetry:
+		v := valid.NewVMap()
+		var first error
+		if c.Fn%2 == 0 {
+			first = v.Valid(a.src) // no rules yet
+		} else {
+			first = v.Valid(nil)
+		}
+		if a.rule != nil {
+			v.SetRule(a.rule)
+		}
+		second := v.Valid(a.src)
+		errRes(second)
+		if first != nil {
+			// the early error becomes one more clause of the canonical result (clauses may be compared as a multiset)
+			res.Handed = append(res.Handed, first.Error())
+			if res.Canon == "nil" {
+				res.Canon = "err:first Valid: " + first.Error()
+			} else if strings.HasPrefix(res.Canon, "err:") {
+				res.Canon += "; first Valid: " + first.Error()
+			}
+		}
+	case EUrlRetry:
+		v := valid.NewVUrl()
+		var first error
+		if c.Fn%2 == 0 {
+			first = v.Valid([]byte(a.str)) // not a string
+		} else {
+			first = v.Valid(nil)
+		}
+		second := v.SetRule(a.rule).Valid(a.src)
+		errRes(second)
+		if first != nil {
+			// the early error becomes one more clause of the canonical result (clauses may be compared as a multiset)
+			res.Handed = append(res.Handed, first.Error())
+			if res.Canon == "nil" {
+				res.Canon = "err:first Valid: " + first.Error()
+			} else if strings.HasPrefix(res.Canon, "err:") {
+				res.Canon += "; first Valid: " + first.Error()
+			}
+		}
 	case EUrl:
 		errRes(valid.Url(a.src, a.rule))
 	case EUrlForFn:
@@ -745,6 +791,10 @@ func mkOdd(v int) interface{} {
 // SameResult compares two canonical results; unordered ones as multisets of clauses.
 func SameResult(x, y string, unordered bool) bool {
 	if x == y {
+		return true
+	}
+	if unordered && strings.HasPrefix(x, "panic:") && strings.HasPrefix(y, "panic:") {
+		// which element of a Go map is reached first is unspecified, so is which of several panicking elements panics
 		return true
 	}
 	if !unordered || !strings.HasPrefix(x, "err:") || !strings.HasPrefix(y, "err:") {
